@@ -64,12 +64,15 @@ func (r *router) startQuicServer(cfg *ServerConfig) (*quicServer, error) {
 	l, err := qt.Listen(tlsConfig, quicConfig)
 	if err != nil {
 		qt.Close()
+		uc.Close()
 		return nil, fmt.Errorf("failed to listen quic, %w", err)
 	}
 
 	s := &quicServer{
 		r:           r,
 		l:           l,
+		qt:          qt,
+		uc:          uc,
 		idleTimeout: idleTimeout,
 		logger:      r.subLoggerForServer("server_quic", cfg.Tag),
 	}
@@ -89,6 +92,8 @@ func (r *router) startQuicServer(cfg *ServerConfig) (*quicServer, error) {
 type quicServer struct {
 	r           *router
 	l           *quic.Listener
+	qt          *quic.Transport
+	uc          net.PacketConn // qt does not close it
 	idleTimeout time.Duration
 	logger      *zerolog.Logger
 
@@ -190,6 +195,8 @@ func (s *quicServer) Close() error {
 	s.closeOnce.Do(func() {
 		s.closed.Store(true)
 		s.l.Close()
+		s.qt.Close()
+		s.uc.Close()
 	})
 	return nil
 }
